@@ -95,6 +95,12 @@ at_should_fail(void)
 	at_serial++;
 	if (at_fail_k > 0 && --at_fail_k == 0) {
 		at_failed = at_serial;
+		if (getenv("VERIF_AT_FAILBT") != NULL) {
+			void *bt[12];
+			int   n = backtrace(bt, 12);
+			fprintf(stderr, "injected allocation failure (serial %ld) at:\n", at_serial);
+			backtrace_symbols_fd(bt, n, 2);
+		}
 		return 1;
 	}
 	return 0;
